@@ -29,6 +29,10 @@ func (p ArrayPattern) Bind(ctx context.Context, local Scope, value Value) (conte
 	if !is {
 		return ctx, EmptyScope, fmt.Errorf("value %s is not an array", value)
 	}
+	// An array pattern describes consecutive items starting at index 0.
+	if array.offset != 0 || array.count != len(array.values) {
+		return ctx, EmptyScope, fmt.Errorf("array %s has an offset or holes and cannot match array pattern %s", array, p)
+	}
 
 	extraElements := make(map[int]int)
 	for i, item := range p.items {
